@@ -57,7 +57,7 @@ class CacheRoles:
                 raise AnalysisError('cannot find the wrapper coroutine of threadsafe_async_cache')
             returned = nested[0]
         self.wrapper: Scope = returned
-        self.cfg: CFG = build(self.wrapper, p)
+        self.cfg: CFG = build(self.wrapper, p, inline_module_helpers=True)
         g = self.cfg
         ires = Resolver(impl)
         # closure variables of the implementation function and how they are built
@@ -275,7 +275,7 @@ class CacheRoles:
         self.bad_ownership = []
         g = self.cfg
         for n in g.nodes:
-            if n.kind != 'branch':
+            if n.kind != 'branch' or n.meta.get('in_assert'):
                 continue
             t = resolve(g, n, unalias(g, n, n.meta['test']), keep=self.event_keep)
             if not (isinstance(t, ast.Compare) and len(t.ops) == 1):
@@ -309,7 +309,7 @@ def presence_branches(r: CacheRoles) -> List[Tuple[Node, str]]:
     g = r.cfg
     out = []
     for n in g.nodes:
-        if n.kind != 'branch':
+        if n.kind != 'branch' or n.meta.get('in_assert'):
             continue
         t = resolve(g, n, n.meta['test'])
         reads = any(isinstance(x, ast.Name) and x.id == r.table for x in ast.walk(t))
@@ -392,7 +392,7 @@ def lookup_vars(r: CacheRoles) -> Set[str]:
         for n in g.nodes:
             if n.kind == 'store_name' and n.meta['name'] not in out:
                 st = n.meta.get('stmt')
-                v = st.value if isinstance(st, (ast.Assign, ast.AnnAssign)) else None
+                v = st.value if isinstance(st, (ast.Assign, ast.AnnAssign, ast.NamedExpr)) else None
                 if v is None and n.meta.get('inlined_param'):
                     v = n.meta.get('value')      # parameter of an inlined helper bound to a look-up variable
                 if v is not None and not isinstance(v, ast.Call) and any(
